@@ -300,6 +300,9 @@ func (s *Sink) processHeader() error {
 	if err := pb.Unmarshal(headerBytes, header); err != nil {
 		return fmt.Errorf("failed to unmarshal snapshot header: %v", err)
 	}
+	if header.FormatVersion != SnapshotFormatVersion {
+		return fmt.Errorf("unsupported snapshot format version %d", header.FormatVersion)
+	}
 	s.header = header
 
 	// Remove processed data from buffer.
